@@ -24,14 +24,18 @@ class Canon:
 
     def __init__(self, f):
         self.f = f
-        if len(f.pos_params) < 2:
+        if len(f.pos_params) < 1:
             raise AnalysisError(f"{f.qualname} no longer takes (schema, output stream): the canonical form is produced in a way this rule does not follow")
-        self.S, self.FO = f.pos_params[0], f.pos_params[1]
+        # one parameter: the text is what the function returns (fragments concatenated, nested schemas by recursive calls)
+        self.returns = len(f.pos_params) == 1
+        self.S, self.FO = f.pos_params[0], (f.pos_params[1] if len(f.pos_params) > 1 else "\x00none")
         tv = [n.targets[0].id for n in walk_local(f.node) if isinstance(n, ast.Assign) and isinstance(n.targets[0], ast.Name) and norm(n.value) in (f"{self.S}['type']", f"{self.S}.get('type')")]
         self.tvar = tv[0] if tv else f"{self.S}['type']"
         self.emit_methods = set()  # `fo.write(x)` on a text stream or `parts.append(x)` on a list of fragments joined with ''
 
     def text_of(self, stmts):
+        if self.returns:
+            return self.returned_text(stmts)
         parts = []
         for st in stmts:
             order = tree_order(st)
@@ -40,8 +44,67 @@ class Canon:
                 if isinstance(n, ast.Call) and isinstance(n.func, ast.Attribute) and n.func.attr in ("write", "append") and norm(n.func.value) == self.FO and len(n.args) == 1 and not n.keywords:
                     self.emit_methods.add(n.func.attr)
                     here.append((order[id(n)], render(n.args[0])))
+                elif isinstance(n, ast.Call) and isinstance(n.func, ast.Name) and n.func.id == self.FO and len(n.args) == 1 and not n.keywords:
+                    # the second parameter is itself the emitting callable (`buf.write` / `parts.append` of the caller)
+                    self.emit_methods.add("call")
+                    here.append((order[id(n)], render(n.args[0])))
             parts.extend(t for _, t in sorted(here))
         return "".join(parts)
+
+    def returned_text(self, stmts):
+        """the template of the string an arm returns: literal text with \x00expr\x01 holes; a recursive call stands for a
+        nested schema and contributes nothing, `sep.join(f(x) for x in xs)` is `sep` followed by the template of `f(x)`"""
+        env = {}
+        fname = self.f.name
+        bad = []
+
+        def r(e):
+            if isinstance(e, ast.Constant) and isinstance(e.value, str):
+                return e.value
+            if isinstance(e, ast.JoinedStr):
+                out = ""
+                for v in e.values:
+                    if isinstance(v, ast.Constant):
+                        out += v.value
+                    elif v.conversion == -1 and v.format_spec is None and (isinstance(v.value, ast.Name) and v.value.id in env or isinstance(v.value, ast.Call)):
+                        out += r(v.value)
+                    else:
+                        out += "\x00" + norm(v.value) + ("!" + chr(v.conversion) if v.conversion != -1 else "") + (":" + norm(v.format_spec) if v.format_spec else "") + "\x01"
+                return out
+            if isinstance(e, ast.BinOp) and isinstance(e.op, ast.Add):
+                return r(e.left) + r(e.right)
+            if isinstance(e, ast.Name) and e.id in env:
+                return env[e.id]
+            if isinstance(e, ast.Call) and isinstance(e.func, ast.Name) and e.func.id == fname and len(e.args) == 1 and not e.keywords:
+                return ""
+            if isinstance(e, ast.Call) and isinstance(e.func, ast.Attribute) and e.func.attr == "join" and isinstance(e.func.value, ast.Constant) and isinstance(e.func.value.value, str) and len(e.args) == 1 and not e.keywords:
+                a = e.args[0]
+                if isinstance(a, (ast.GeneratorExp, ast.ListComp)) and len(a.generators) == 1 and not a.generators[0].ifs:
+                    return e.func.value.value + r(a.elt)
+                if isinstance(a, ast.Call) and isinstance(a.func, ast.Name) and a.func.id == "map" and len(a.args) == 2 and isinstance(a.args[0], ast.Name) and a.args[0].id == fname:
+                    return e.func.value.value
+                if isinstance(a, ast.Name) and a.id in env:
+                    return e.func.value.value + env[a.id]
+            if isinstance(e, (ast.GeneratorExp, ast.ListComp)) and len(e.generators) == 1 and not e.generators[0].ifs:
+                return r(e.elt)
+            if isinstance(e, ast.IfExp):
+                bad.append(norm(e))
+            return "\x00?" + norm(e) + "\x01"
+
+        text = ""
+        for st in stmts:
+            if isinstance(st, ast.Assign) and len(st.targets) == 1 and isinstance(st.targets[0], ast.Name):
+                v = st.value
+                stringy = isinstance(v, (ast.JoinedStr, ast.BinOp, ast.GeneratorExp, ast.ListComp)) or isinstance(v, ast.Call) and (isinstance(v.func, ast.Name) and v.func.id == fname or isinstance(v.func, ast.Attribute) and v.func.attr == "join")
+                if stringy:
+                    env[st.targets[0].id] = r(v)
+            elif isinstance(st, ast.Return) and st.value is not None:
+                self.emit_methods.add("return")
+                text += r(st.value)
+            elif isinstance(st, (ast.If, ast.For, ast.While, ast.Try, ast.With)):
+                if any(isinstance(n, ast.Return) for n in ast.walk(st)):
+                    raise AnalysisError(f"{self.f.qualname}: an arm builds its text under further control flow: this rule does not follow it")
+        return text
 
     def regions(self, stmts, out):
         """partition the function by its kind dispatch: {kinds: (node, text)}"""
@@ -81,7 +144,7 @@ class Canon:
         """loop variables that range over S['fields']"""
         out = set()
         for n in walk_local(self.f.node):
-            if isinstance(n, ast.For) and f"{self.S}['fields']" in norm(n.iter):
+            if isinstance(n, (ast.For, ast.comprehension)) and f"{self.S}['fields']" in norm(n.iter):
                 for x in ast.walk(n.target):
                     if isinstance(x, ast.Name):
                         out.add(x.id)
@@ -152,11 +215,28 @@ def run(ctx):
     calls = [n for n in walk_local(pub.node) if isinstance(n, ast.Call) and isinstance(n.func, ast.Name) and n.func.id == f.name]
     ok = len(calls) == 1 and norm(calls[0].args[0]) == f"parse_schema({pub.pos_params[0]})"
     ctx.check("C13.R2", "to_parsing_canonical_form(schema) canonicalises parse_schema(schema)", ok, pub.where(), f"to_parsing_canonical_form: {[norm(c) for c in calls]}", "names would not be full names if the schema were not parsed first")
-    if "append" in K.emit_methods:
-        # fragments collected in a list: the text is their concatenation only if the public function joins them with ''
-        out_arg = norm(calls[0].args[1]) if len(calls) == 1 and len(calls[0].args) > 1 else None
+    emit = set(K.emit_methods)
+    out_arg = norm(calls[0].args[1]) if len(calls) == 1 and len(calls[0].args) > 1 else None
+    if K.returns:
         rets = [norm(n.value) for n in walk_local(pub.node) if isinstance(n, ast.Return) and n.value is not None]
-        if "write" in K.emit_methods or out_arg is None or rets != [f"''.join({out_arg})"] or [norm(v) for v in assigned_values(pub.node, out_arg)] != ["[]"]:
+        if len(calls) != 1 or rets != [norm(calls[0])]:
+            ctx.unrecognised("C13.R1", "text returned by the writer", pub.where(), f"the public function does not simply return the writer's text (returns {rets})")
+    if "call" in emit:
+        # the emitter is a callable handed in by the public function: a bound `write` / `append` of the collecting object
+        m = re.fullmatch(r"([A-Za-z_]\w*)\.(write|append)", out_arg or "")
+        if len(emit) > 1 or not m:
+            ctx.unrecognised("C13.R1", "fragments passed to a callable", pub.where(), f"the emitting callable is not a bound write / append of a local collector ({out_arg})")
+            emit = set()
+        else:
+            out_arg, emit = m.group(1), {m.group(2)}
+            if m.group(2) == "write":
+                rets = [norm(n.value) for n in walk_local(pub.node) if isinstance(n, ast.Return) and n.value is not None]
+                if rets != [f"{out_arg}.getvalue()"] or [norm(v) for v in assigned_values(pub.node, out_arg)] not in (["StringIO()"], ["io.StringIO()"]):
+                    ctx.unrecognised("C13.R1", "fragments passed to a callable", pub.where(), f"the collector is not a fresh StringIO whose value is returned (returns {rets})")
+    if "append" in emit:
+        # fragments collected in a list: the text is their concatenation only if the public function joins them with ''
+        rets = [norm(n.value) for n in walk_local(pub.node) if isinstance(n, ast.Return) and n.value is not None]
+        if "write" in emit or out_arg is None or rets != [f"''.join({out_arg})"] or [norm(v) for v in assigned_values(pub.node, out_arg)] != ["[]"]:
             ctx.unrecognised("C13.R1", "fragments appended to a list", pub.where(), f"the fragments are not simply joined with '' by the public function (returns {rets})")
     alltext = "".join(t for (_, t) in T.values())
     ctx.check("C13.R2", "no template mentions namespace / doc / aliases / default / order / logicalType", not re.search(r"namespace|doc|aliases|default|order|logicalType", re.sub(r"\x00.*?\x01", "", alltext)), f.where(), "canonical templates", "a non-canonical attribute is emitted")
